@@ -489,7 +489,7 @@ def loaded_from(config_path):
 
 
 @contract(CF + "_load_from_explicit_path", props=["C20"], types=dict(config_path=PathT, merged_config=Dict), returns=Dict,
-          raises=["ConfigError"], no_selftest=True)
+          raises=["ConfigError"], no_selftest=True, fresh_result=True)
 class LoadFromExplicitPath:
     def requires(config_path):
         return isinstance(yaml_doc(file_of(config_path)), dict) or yaml_doc(file_of(config_path)) is None
@@ -502,15 +502,55 @@ class LoadFromExplicitPath:
                        result == loaded_from(config_path) and config_valid(result))
 
 
+@contract(CF + "_try_load_from_location~mapping-docs", props=["C20"],
+          types=dict(location=PathT, config=Dict, is_valid=Bool, errors=SeqOf(Str)), returns=Opt(Dict), no_selftest=True,
+          fresh_result=True)
+class TryLoadFromLocationVerified:
+    """Verified view, under the domain assumption of the parser chain (the file holds a YAML/JSON mapping): a default
+    location that cannot be read / parsed / validated is skipped (None); a loaded one is valid and a fresh dict."""
+
+    def requires(location):
+        return isinstance(yaml_doc(file_of(location)), dict) or yaml_doc(file_of(location)) is None
+
+    def ensures_loaded_config_is_valid(location, result):
+        return True if result is None else config_valid(result)
+
+
+@contract(CF + "_try_load_from_location", props=["C20"], types=dict(location=PathT), returns=Opt(Dict), no_selftest=True,
+          assumed="interface used at call sites: the same clause as the verified view ~mapping-docs, without its precondition "
+                  "(that a default-location file holds a mapping cannot be established for an arbitrary element of the "
+                  "module-level CONFIG_LOCATIONS list; a non-mapping document fails inside the parser chain and is skipped "
+                  "by the `except ConfigError` of this function)")
+class TryLoadFromLocation:
+    def ensures_loaded_config_is_valid(location, result):
+        return True if result is None else config_valid(result)
+
+
+@contract(CF + "_load_from_default_locations", props=["C20"],
+          types=dict(existing_locations=SeqOf(PathT), location=PathT, loaded_config=Opt(Dict), loc=PathT), returns=Dict,
+          no_selftest=True, fresh_result=True)
+class LoadFromDefaultLocations:
+    """Without --config: the first default location that loads, else the built-in defaults -- always a FRESH dict: the
+    commands store into the loaded dict (config set does so before validating), so the module-level DEFAULT_CONFIG object
+    itself must never be handed out (property text: a rejected value changes nothing; reset restores the defaults)."""
+
+    def ensures_result_is_valid_or_the_defaults(result):
+        return config_valid(result) or result == DEFAULTS
+
+    def inv0():
+        return True
+
+
 @contract(CF + "load_config", props=["C20"], types=dict(config_path=Opt(PathT)), returns=Dict, raises=["ConfigError"],
-          no_selftest=True)
+          no_selftest=True, fresh_result=True)
 class LoadCliConfig:
-    """`thailint --config FILE config get KEY` prints a value of THIS dict (the default-location search without --config
-    reads module state CONFIG_LOCATIONS and is not modelled)."""
+    """`thailint [--config FILE] config get KEY` prints a value of THIS dict; it is always a fresh object (never the
+    module-level DEFAULT_CONFIG itself)."""
 
     def requires(config_path):
-        return config_path is not None and (isinstance(yaml_doc(file_of(config_path)), dict) or yaml_doc(file_of(config_path)) is None)
+        return implies(config_path is not None,
+                       isinstance(yaml_doc(file_of(config_path)), dict) or yaml_doc(file_of(config_path)) is None)
 
     def ensures_existing_file_is_merged_over_the_defaults_and_valid(config_path, result):
-        return implies(fs_exists(config_path) and suffix_lower(config_path) in (".yaml", ".yml", ".json"),
+        return implies(config_path is not None and fs_exists(config_path) and suffix_lower(config_path) in (".yaml", ".yml", ".json"),
                        result == loaded_from(config_path) and config_valid(result))
